@@ -11,6 +11,10 @@ pub struct ZoneFile {
     pub bytes: Arc<Vec<u8>>,
     /// Transition times of the v2+ data block (empty if none / not TZif).
     pub transitions: Vec<i64>,
+    /// Transitions after which local midnight does not exist (the clock jumps
+    /// forward from 00:00): the days on which "start of day" takes the
+    /// fallback path.
+    pub midnight_gaps: Vec<i64>,
     /// Offset where the footer starts (== len if no footer found).
     pub footer_at: usize,
     pub is_tzif: bool,
@@ -22,14 +26,17 @@ pub struct Image {
     /// Identifiers usable as zones in the workload (TZif files outside
     /// posix/ and right/), sorted.
     pub zones: Vec<String>,
+    /// The subset of `zones` that has days without a local midnight.
+    pub midnight_gap_zones: Vec<String>,
 }
 
 fn be32(b: &[u8], at: usize) -> usize {
     u32::from_be_bytes([b[at], b[at + 1], b[at + 2], b[at + 3]]) as usize
 }
 
-/// Minimal TZif header reader: returns (v2 transition times, footer offset).
-fn scan_tzif(b: &[u8]) -> Option<(Vec<i64>, usize)> {
+/// Minimal TZif header reader: returns (v2 transition times, transitions that
+/// skip local midnight, footer offset).
+fn scan_tzif(b: &[u8]) -> Option<(Vec<i64>, Vec<i64>, usize)> {
     if b.len() < 44 || &b[0..4] != b"TZif" {
         return None;
     }
@@ -47,7 +54,7 @@ fn scan_tzif(b: &[u8]) -> Option<(Vec<i64>, usize)> {
     let (isut, isstd, leap, timecnt, typecnt, charcnt) = counts(0);
     let v1_len = timecnt * 4 + timecnt + typecnt * 6 + charcnt + leap * 8 + isstd + isut;
     if version == 0 {
-        return Some((Vec::new(), b.len()));
+        return Some((Vec::new(), Vec::new(), b.len()));
     }
     let h2 = 44 + v1_len;
     if b.len() < h2 + 44 || &b[h2..h2 + 4] != b"TZif" {
@@ -66,7 +73,26 @@ fn scan_tzif(b: &[u8]) -> Option<(Vec<i64>, usize)> {
         x.copy_from_slice(&b[at..at + 8]);
         tr.push(i64::from_be_bytes(x));
     }
-    Some((tr, d2 + v2_len))
+    // transition types and the utoff of each local time type
+    let types_at = d2 + timecnt * 8;
+    let ttinfo_at = types_at + timecnt;
+    let utoff = |ty: usize| -> i64 {
+        let at = ttinfo_at + ty * 6;
+        i32::from_be_bytes([b[at], b[at + 1], b[at + 2], b[at + 3]]) as i64
+    };
+    let mut gaps = vec![];
+    for i in 1..timecnt {
+        let before = b[types_at + i - 1] as usize;
+        let after = b[types_at + i] as usize;
+        if before >= typecnt || after >= typecnt {
+            continue;
+        }
+        let (ob, oa) = (utoff(before), utoff(after));
+        if oa > ob && (tr[i] + ob).rem_euclid(86_400) == 0 {
+            gaps.push(tr[i]);
+        }
+    }
+    Some((tr, gaps, d2 + v2_len))
 }
 
 fn load_dir(root: &Path, dir: &Path, out: &mut BTreeMap<String, ZoneFile>) {
@@ -79,11 +105,11 @@ fn load_dir(root: &Path, dir: &Path, out: &mut BTreeMap<String, ZoneFile>) {
         } else if let Ok(bytes) = std::fs::read(&p) {
             let rel = p.strip_prefix(root).unwrap().to_str().unwrap().to_string();
             let scanned = scan_tzif(&bytes);
-            let (transitions, footer_at, is_tzif) = match scanned {
-                Some((t, f)) => (t, f, true),
-                None => (Vec::new(), bytes.len(), false),
+            let (transitions, midnight_gaps, footer_at, is_tzif) = match scanned {
+                Some((t, g, f)) => (t, g, f, true),
+                None => (Vec::new(), Vec::new(), bytes.len(), false),
             };
-            out.insert(rel, ZoneFile { bytes: Arc::new(bytes), transitions, footer_at, is_tzif });
+            out.insert(rel, ZoneFile { bytes: Arc::new(bytes), transitions, midnight_gaps, footer_at, is_tzif });
         }
     }
 }
@@ -96,15 +122,17 @@ impl Image {
         let mut files = BTreeMap::new();
         for id in ids {
             if let Ok(bytes) = std::fs::read(root.join(id)) {
-                let (transitions, footer_at, is_tzif) = match scan_tzif(&bytes) {
-                    Some((t, f)) => (t, f, true),
-                    None => (Vec::new(), bytes.len(), false),
+                let (transitions, midnight_gaps, footer_at, is_tzif) = match scan_tzif(&bytes) {
+                    Some((t, g, f)) => (t, g, f, true),
+                    None => (Vec::new(), Vec::new(), bytes.len(), false),
                 };
-                files.insert(id.to_string(), ZoneFile { bytes: Arc::new(bytes), transitions, footer_at, is_tzif });
+                files.insert(id.to_string(), ZoneFile { bytes: Arc::new(bytes), transitions, midnight_gaps, footer_at, is_tzif });
             }
         }
-        let zones = files.keys().cloned().collect();
-        Image { files, zones }
+        let zones: Vec<String> = files.keys().cloned().collect();
+        let midnight_gap_zones =
+            zones.iter().filter(|z| !files[*z].midnight_gaps.is_empty()).cloned().collect();
+        Image { files, zones, midnight_gap_zones }
     }
     pub fn load() -> Image {
         let root = Path::new(ZONEINFO);
@@ -122,7 +150,9 @@ impl Image {
             })
             .map(|(k, _)| k.clone())
             .collect();
-        Image { files, zones }
+        let midnight_gap_zones =
+            zones.iter().filter(|z| !files[*z].midnight_gaps.is_empty()).cloned().collect();
+        Image { files, zones, midnight_gap_zones }
     }
     pub fn get(&self, abs: &Path) -> Option<&ZoneFile> {
         let rel = abs.strip_prefix(ZONEINFO).ok()?;
